@@ -331,7 +331,7 @@ class TriaMesh:
         vdeg : array
             Array of vertex degrees.
         """
-        vdeg = np.bincount(self.t.reshape(-1))
+        vdeg = np.asarray(self.adj_sym.getnnz(axis=0)).reshape(-1)
         return vdeg
 
     def vertex_areas(self):
